@@ -33,6 +33,10 @@ def keys_of(f):
     return [[f, b, s, q, t] for b in DN for s in SP for q in QS for t in TK]
 
 
+FRONT_OF = {"adf11scd": "ionisation", "adf11acd": "recombination", "adf11plt": "line_power", "adf11prb": "continuum_power", "adf11prc": "cx_power",
+            "adf11ccd": "thermal_cx", "adf21": "beam_stopping", "adf22bmp": "beam_population", "adf22bme": "beam_emission"}
+
+
 def readback(root, universe):
     post = []
     for key in universe:
@@ -44,6 +48,8 @@ def readback(root, universe):
             for v in (1, 2):
                 if c06.same(r[1], c06.value(key, v)):
                     vid = v
+            if vid == -1 and isinstance(r[1], dict) and key[0] in FRONT_OF.values() and c06.close_tables(r[1], c06.inst_value(key)):
+                vid = c06.INST
         post.append([key, vid])
     return post
 
@@ -74,8 +80,11 @@ def record(seed, length, universe):
     try:
         for _ in range(length):
             f = rng.choice(fams)
-            kind = rng.choices(["write", "multi", "reject", "rejmulti"], [6, 2, 1, 2])[0]
+            kind = rng.choices(["write", "multi", "reject", "rejmulti", "install"], [6, 2, 1, 2, 2])[0]
             ev = None
+            fronts = [fr for fr, ff in FRONT_OF.items() if ff == f]
+            if kind == "install" and not fronts:
+                kind = "write"
             if kind == "write":
                 k = rng.choice(keys_of(f)); v = rng.choice([1, 2]); api = rng.choice(["add", "update"]); sp = rng.choice([1, 2])
                 ev = {"op": "write", "k": k, "v": v, "api": api, "sp": sp}
@@ -83,6 +92,21 @@ def record(seed, length, universe):
                     c06.api_write(root, k, c06.value(k, v), api, sp)
                 except Exception as e:       # noqa: BLE001
                     ev["op"] = "write-raised-" + type(e).__name__
+            elif kind == "install":
+                fr = fronts[0]; sp_ = rng.choice(SP); dn = rng.choice(DN) if fr in ("adf11ccd", "adf21", "adf22bmp", "adf22bme") else DN[0]
+                # the driver only names the call; which keys it writes is the specification's business (InstallKeys)
+                z = c06._el(sp_).atomic_number
+                if fr in ("adf11scd", "adf11plt"):
+                    qs = [q for q in QS if q + 1 <= z]
+                elif fr.startswith("adf11"):
+                    qs = [q for q in QS if 1 <= q <= z]
+                else:
+                    qs = [1]
+                ev = {"op": "install", "front": fr, "f": f, "s": sp_, "d": dn}
+                try:
+                    c06.api_install(root, dict(ev, keys=[[f, q] for q in qs]))
+                except Exception as e:       # noqa: BLE001
+                    ev["op"] = "install-raised-" + type(e).__name__
             elif kind in ("multi", "rejmulti"):
                 ks = rng.sample(keys_of(f), rng.randint(2, 3))
                 pairs = [(k, rng.choice([1, 2])) for k in ks]
@@ -131,7 +155,7 @@ def validate(v, traces, label="Trace_Repository"):
     tdir.mkdir(parents=True, exist_ok=True)
     tf = tdir / f"c06-{os.getpid()}.json"
     tf.write_text(json.dumps(traces))
-    cfg = c06.CFG.format(apis='{"add", "update"}', maxhist=0, maxmulti=0, same="FALSE", **UNIVERSE_CFG)
+    cfg = c06.CFG.format(apis='{"add", "update"}', maxhist=0, maxmulti=0, same="FALSE", fronts=c06.ALLF, **UNIVERSE_CFG)
     cfg = cfg.replace("SPECIFICATION Spec", "SPECIFICATION TraceSpec").replace("ACTION_CONSTRAINT Emit\n", "")
     cfg = cfg.replace("INVARIANT LastWriteWins\n", "").replace("PROPERTY OthersUntouched\n", "").replace("VIEW View\n", "")
     cfg += "INVARIANT Progress\n"
